@@ -13,6 +13,7 @@ import (
 	"github.com/attestantio/go-eth2-client/spec/phase0"
 	"github.com/attestantio/vouch/internal/vnd"
 	"github.com/attestantio/vouch/internal/vstub"
+	"github.com/attestantio/vouch/services/attestationaggregator"
 	"github.com/attestantio/vouch/services/attester"
 	"github.com/attestantio/vouch/services/beaconblockproposer"
 	"github.com/attestantio/vouch/services/beaconcommitteesubscriber"
@@ -85,9 +86,19 @@ func (h *hProposer) Propose(_ context.Context, duty *beaconblockproposer.Duty) {
 	h.proposed = append(h.proposed, duty)
 }
 
-type hAggregator struct{ calls int }
+type hAggregator struct {
+	calls  int
+	duties []*attestationaggregator.Duty
+}
 
-func (h *hAggregator) Aggregate(_ context.Context, _ interface{}) { h.calls++ }
+func (h *hAggregator) Aggregate(_ context.Context, d *attestationaggregator.Duty) {
+	h.calls++
+	h.duties = append(h.duties, d)
+}
+
+func (h *hAggregator) AggregatorsAndSignatures(_ context.Context, _ []e2wtypes.Account, _ phase0.Slot, _ []uint64) ([]phase0.BLSSignature, []bool, error) {
+	return nil, nil, errors.New("not used")
+}
 
 type hCtlAccounts struct {
 	fail  bool
@@ -364,6 +375,8 @@ func VerifC14_Aggregate() {
 		e.att.onAttest = func() { e.s.subscriptionInfos[epoch] = full }
 	}
 	e.att.result = atts
+	aggRec := &hAggregator{}
+	e.s.attestationAggregator = aggRec
 	e.s.pendingAttestations[slot] = true
 	duty, _ := attester.NewDuty(context.Background(), slot, 4, vals, nil, nil, nil)
 	e.s.AttestAndScheduleAggregate(context.Background(), duty)
@@ -374,6 +387,15 @@ func VerifC14_Aggregate() {
 			vnd.Assert(e.sched.Count(name) == 1, "C14.aggregation-job-for-every-aggregator-committee")
 			if j := e.sched.Find(name); j != nil {
 				vnd.Assert(j.Time.Equal(e.ct.StartOfSlot(slot).Add(e.s.attestationAggregationDelay)), "C14.aggregation-job-time")
+				// the job aggregates for that committee's validator, with its slot signature, over the data attested
+				before := len(aggRec.duties)
+				j.Fn(context.Background())
+				vnd.Assert(len(aggRec.duties) == before+1, "C14.aggregation-job-aggregates-once")
+				if len(aggRec.duties) == before+1 {
+					d := aggRec.duties[before]
+					want, _ := atts[c].Data.HashTreeRoot()
+					vnd.Assert(d.Slot == slot && d.ValidatorIndex == vals[c] && d.SlotSignature == infos[phase0.CommitteeIndex(c)].Signature && d.AttestationDataRoot == phase0.Root(want), "C14.aggregation-job-is-for-that-committees-aggregator-and-attestation")
+				}
 			}
 		} else {
 			vnd.Assert(e.sched.Count(name) == 0, "C14.no-aggregation-job-for-non-aggregator")
